@@ -1,7 +1,7 @@
 """C08 - filter strings compile to the RFC 4511 filter they denote."""
 import os
 from facts import walk, callee_of, call_args, loc
-import hirq, anchors, absx, peg, cone, engine, unesc, sem
+import hirq, anchors, absx, peg, cone, engine, unesc, sem, nomlit
 from shapes import *
 
 EXPLANATION = ("P1 the PEG extracted from the nom combinator calls of src/filter.rs (resolved callees; let-chains, alt, delimited, preceded, "
@@ -18,7 +18,7 @@ EXPLANATION = ("P1 the PEG extracted from the nom combinator calls of src/filter
                "output feeding each slot; P4 the equality / presence / substring discrimination (same evaluation), no `*` list after an ordering / approx "
                "operator, and the adjacent-asterisk test evaluated on all 121 lists of 0..4 components over {empty, x, *}; P5 the "
                "unescaper's transition table over {backslash, hex digit, other} x {WantFirst, WantSecond, Value, Error} and acceptance only "
-               "in Value, the value fold (fold_many0 closures or a loop over the consumed prefix: base case, generic step, acceptance) and the unescaper evaluated exhaustively on literals over all 5120 (state, byte) pairs (hex arithmetic included); P6 no panic source reachable from parse / parse_matched_values that is not reviewed infeasible or discharged by a guard re-read on every run; "
+               "in Value, the unescaper evaluated exhaustively on literals over all 5120 (state, byte) pairs (hex arithmetic included); WHAT unescaped() computes, whatever it is built from (a fold over the state machine, a loop, a split at backslashes + from_str_radix ...), decided as a function by exact literal evaluation of its typed HIR (nom combinators, filter.rs functions and std functions by their definitions on literals) over a finite partition of about 3100 inputs: every class of octet after a backslash (hex digit 0-9 / a-f / A-F, + - blank, the ASCII neighbours of the digit ranges, other ASCII, >= 0x80, backslash, the value terminators, end of input) with every class, every octet 0..255 in either position, with and without literal octets around, a remainder, runs of two escapes, values of the lengths around every integer constant of the code - accepted with the octet 16*hi+lo exactly when both are hex digits, rejected otherwise, every other octet unchanged, the remainder left, never a panic; where the value is computed by feeding Unescaper::feed, additionally by induction over the length: the value fold (fold_many0 closures or a loop over the consumed prefix: base case, generic step, acceptance); P6 no panic source reachable from parse / parse_matched_values that is not reviewed infeasible or discharged by a guard re-read on every run; "
                "P8 what the leaf parsers RETURN (value reading of the nom combinators next to the grammar reading: recognize = the consumed bytes, terminated / preceded / "
                "delimited = one part's output, pair / tuple, opt, many0, map, verify, peek ...): the attribute description slot of every item holds exactly the bytes the "
                "attribute-description step consumed (type and all options), the operator dispatched on is the literal consumed, the matchingRule slot holds what the step "
@@ -27,7 +27,7 @@ EXPLANATION = ("P1 the PEG extracted from the nom combinator calls of src/filter
                "between hand one part's tree upwards unchanged. Not decided: "
                "'printing the BER reproduces the input' taken whole.")
 TRUSTED = ['nom combinator semantics', 'RFC 4515 grammar transcribed below', 'rules/triage/C08.tsv']
-UNDECIDED = ['round trip through a canonical printer taken whole']
+UNDECIDED = ['round trip through a canonical printer taken whole', 'a value computation that is not a per-octet fold over Unescaper::feed is decided on literal values up to 121 octets (around every integer constant of its code), not for every length']
 ASSUMPTIONS = []
 SHARED = [('C07', ('B1.', 'B2m.', 'B4.encoder', 'B5.'), 'P7.ber-writer')]
 TRIAGE = os.path.join(engine.VERIF, 'rules', 'triage', 'C08.tsv')
@@ -332,6 +332,7 @@ def run(ctx):
 
     # ------------------------------------------------------------------ P5 unescaper
     check_unescaper(ctx, f, X)
+    check_value_function(ctx, f)
 
     # ------------------------------------------------------------------ P6 no panic
     G = cone.Graph(f, engine.REPO)
@@ -766,11 +767,213 @@ def check_unescaper(ctx, f, X=None):
     # the fold in `unescaped`: start in Value, push exactly the Value payloads, accept only in Value
     U = hirq.Body(f, f.body(FP + 'unescaped'))
     ctx.analysed['bodies'].add(U.path)
+    if not feeds_the_state_machine(f, U.path):
+        # The value is not computed by feeding the consumed octets to Unescaper::feed one by one (split at backslashes + a
+        # conversion of two octets, a table, ...): there is no fold whose base case / step / acceptance could be stated.  What
+        # the function computes is decided by P5.value-unescaping (check_value_function) - exact literal evaluation of whatever code
+        # is there -, which is evaluated for every way of writing the function, this one included.
+        ctx.ok('P5.fold-form', 'unescaped', loc(U.root), 'unescaped() does not go through Unescaper::feed: decided as a function by P5.value-unescaping alone')
+        return
     ok_init, ok_step, ok_acc, ok_src, form = fold_facts(f, U, X)
     ctx.add('P5.fold-initial-state', 'unescaped', loc(U.root), ok_init, 'the unescaper must start in Value with an empty output')
     ctx.add('P5.fold-step', 'unescaped', loc(U.root), ok_step, 'each input byte must be fed to the unescaper and exactly the Value payloads pushed to the output')
     ctx.add('P5.accept-only-in-value', 'unescaped', loc(U.root), ok_acc, 'a value ending inside an escape sequence (or after a bad one) must be rejected')
     ctx.add('P5.fold-over-consumed-bytes', 'unescaped', loc(U.root), ok_src, 'the bytes fed to the unescaper must be exactly the bytes the parser consumes (all of them, in order); form read: %s' % form)
+
+
+def feeds_the_state_machine(f, path, seen=None):
+    """Is Unescaper::feed called from the body `path` (its closures included) or from a filter.rs function it calls?"""
+    seen = set() if seen is None else seen
+    if path in seen or path not in f.hir:
+        return False
+    seen.add(path)
+    for n, _c in walk(f.hir[path]['body']):
+        if n.get('k') in ('Call', 'MethodCall'):
+            cal = callee_of(n) or ''
+            if cal == unesc.FEED:
+                return True
+            if cal.startswith(FP) and feeds_the_state_machine(f, cal, seen):
+                return True
+        if n.get('k') == 'Path' and n.get('res') != 'local' and (n.get('def') or '').startswith(FP):
+            d = n.get('inst') or n.get('def')
+            if d == unesc.FEED or feeds_the_state_machine(f, d, seen):
+                return True
+    return False
+
+
+# ---------------------------------------------------------------------------------------------------------------------------------
+# P5.value-unescaping: WHAT the value parser computes, decided by exact literal evaluation over a finite partition of inputs
+
+HEXDIGITS = set(b'0123456789abcdefABCDEF')
+
+def ref_value(inp):
+    """RFC 4515 `assertionvalue` as the grammar reads it, on the octets inp: the value is the longest prefix of value characters
+    (everything but NUL ( ) *); in it a backslash must be followed by two hex digits and stands for the octet 16*hi+lo, every
+    other octet stands for itself.  -> (remainder, octets), or (remainder, None) when an escape is malformed (rejected)."""
+    n = 0
+    while n < len(inp) and inp[n] in CLASS_SETS[VALUECHAR]:
+        n += 1
+    raw, rest = inp[:n], inp[n:]
+    out, i = bytearray(), 0
+    while i < len(raw):
+        if raw[i] != 0x5c:
+            out.append(raw[i]); i += 1
+        elif i + 2 < len(raw) and raw[i + 1] in HEXDIGITS and raw[i + 2] in HEXDIGITS:
+            out.append(int(raw[i + 1:i + 3], 16)); i += 3
+        else:
+            return rest, None
+    return rest, bytes(out)
+
+# representatives of the classes an octet after a backslash can fall in: hex digits (both ends of 0-9, a-f, A-F), the signs and the
+# blank that std's number parsers treat specially, the neighbours of the digit ranges in ASCII order (/ : @ G ` g), other ASCII
+# (printable, control), octets >= 0x80 (a UTF-8 lead byte, a continuation byte, 0x80, 0xff), the backslash, the four octets that end
+# the value, and "nothing" (end of input)
+AFTER_BACKSLASH = [bytes([c]) for c in b'09afAF+- gG/:@`x_\x01\x7f\x80\xc3\xa9\xff\\()*\x00'] + [b'']
+CLASS_REPS = [bytes([c]) for c in b'5cC+- gGx\x80\\)'] + [b'']
+
+def value_inputs(lengths):
+    """The literal inputs of the partition (deduplicated, in a fixed order)."""
+    seen, out = set(), []
+    def add(b):
+        if b not in seen:
+            seen.add(b); out.append(b)
+    add(b'')
+    for c in range(256):
+        add(bytes([c]))                                  # every octet on its own: passes through / ends the value
+    add(b'ab'); add(b'a b+-'); add(b'ab)c'); add(b'a*b'); add(b'(a')
+    for x in AFTER_BACKSLASH:                            # every class with every class, right after a backslash
+        for y in (AFTER_BACKSLASH if x else [b'']):
+            add(b'\\' + x + y)
+    for c in range(256):                                 # every octet in either position, next to a hex digit / a sign
+        add(b'\\' + bytes([c]) + b'5')
+        add(b'\\5' + bytes([c]))
+        add(b'\\+' + bytes([c]))
+    for x in CLASS_REPS:                                 # ... with literal characters before / after, a remainder, runs of two escapes
+        for y in (CLASS_REPS if x else [b'']):
+            core = b'\\' + x + y
+            for inp in (b'p' + core, core + b's', b'pq' + core + b'st', core + b')z', core + b'\\41', b'\\6a' + core, core + core, b'a' + core + b'b' + core + b'c'):
+                add(inp)
+    for n in sorted(lengths):                            # lengths around every integer constant the code mentions
+        if n >= 3:
+            for inp in (b'a' * n, b'a' * (n - 3) + b'\\41', b'a' * (n - 3) + b'\\4g'):
+                add(inp)
+    return out
+
+def length_points(f, path, seen=None, out=None):
+    """Lengths at which a length-dependent behaviour of the value function could change: k-1, k, k+1 for every integer literal
+    3 <= k <= 120 in its body and in the filter.rs functions it calls (a cut-off, a buffer size, a chunk length is a constant of the
+    code).  Constants that are not lengths (character codes) only add inputs."""
+    seen = set() if seen is None else seen
+    out = set() if out is None else out
+    if path in seen or path not in f.hir:
+        return out
+    seen.add(path)
+    for n, _c in walk(f.hir[path]['body']):
+        if n.get('k') == 'Lit' and isinstance(n.get('v'), int) and not isinstance(n.get('v'), bool) and 3 <= n['v'] <= 120:
+            out.update((n['v'] - 1, n['v'], n['v'] + 1))
+        if n.get('k') in ('Call', 'MethodCall', 'Path'):
+            cal = (callee_of(n) if n['k'] != 'Path' else (n.get('inst') or n.get('def'))) or ''
+            if cal.startswith(FP):
+                length_points(f, cal, seen, out)
+    return out
+
+def octets_of(t):
+    """The octets a byte-vector term stands for when every one of them is known: literal octets, a vector of known octets, a
+    vector + one pushed octet, a vector + the elements of another (extend / extend_from_slice); None otherwise."""
+    if t[0] == 'lit' and isinstance(t[1], bytes):
+        return t[1]
+    if t[0] in ('vec', 'array'):
+        if all(x[0] == 'lit' and isinstance(x[1], int) and not isinstance(x[1], bool) and 0 <= x[1] <= 255 for x in t[1]):
+            return bytes(x[1] for x in t[1])
+        return None
+    if t[0] == 'vecpush':
+        a = octets_of(t[1])
+        x = t[2]
+        return a + bytes([x[1]]) if a is not None and x[0] == 'lit' and isinstance(x[1], int) and not isinstance(x[1], bool) and 0 <= x[1] <= 255 else None
+    if t[0] == 'concat':
+        a, b = octets_of(t[1]), octets_of(t[2])
+        return a + b if a is not None and b is not None else None
+    return None
+
+def show_octets(b):
+    s_ = lambda x: ''.join(chr(c) if 0x20 <= c < 0x7f else '\\x%02x' % c for c in x)
+    return s_(b) if len(b) <= 24 else '%s..(%d octets)..%s' % (s_(b[:6]), len(b), s_(b[-6:]))
+
+def show_hex(b):
+    return (b.hex() or '(none)') if len(b) <= 12 else '%s..(%d octets)..%s' % (b[:4].hex(), len(b), b[-4:].hex())
+
+def check_value_function(ctx, f):
+    """P5.value-unescaping: the function `unescaped()` computes - whatever it is built from - is the RFC 4515 value reading (ref_value).
+
+    Decided by *exact literal evaluation*: the typed HIR of unescaped() is interpreted (absx; nothing of the library runs) on one
+    literal input at a time - the nom combinators by their definitions (nomlit), filter.rs functions inlined, std functions by their
+    exact models on literals (from_str_radix, from_utf8, split, slicing with its bounds check, to_digit ...) - and the single
+    outcome is compared with the reference.  The inputs are a finite partition of what can follow a backslash: every class of
+    octet (hex digit 0-9 / a-f / A-F, `+`, `-`, blank, the ASCII neighbours of the digit ranges, other ASCII, >= 0x80, backslash,
+    the value terminators, end of input) with every class, every single octet 0..255 in either position, each with and without
+    literal characters before and after, with a remainder, in runs of two escapes, a backslash last / second to last; every
+    octet on its own; and values of the lengths around every integer constant the code mentions.  An input whose evaluation
+    does not end in exactly one known Ok / Err is a violation (fails closed)."""
+    p = FP + 'unescaped'
+    U = hirq.Body(f, f.body(p))
+    where = loc(U.root)
+    params = [b for b, d in U.defs.items() if d['kind'] == 'param']
+    if len(params) != 1:
+        ctx.fail('P5.value-unescaping', 'decided', where, 'unescaped() does not take exactly the input slice')
+        return
+    memo = {}
+    def pure_once(I_, cal, args, node, st):
+        # a filter.rs function applied to known values only (a byte predicate on a literal octet): if its evaluation is one value
+        # and touches nothing (no event, no store, no new path fact), it is that value at every later call with the same arguments
+        if not (cal.startswith(FP) and args and all(absx.ground(a) for a in args)):
+            return None
+        key = (cal, tuple(args))
+        if key in memo:
+            return [absx.Out('val', memo[key], st)]
+        r = I_.inline_call(cal, args, node, st)
+        if r is not None and len(r) == 1 and r[0].kind == 'val' and r[0].st.ev == st.ev and r[0].st.pc == st.pc and r[0].st.heap == st.heap and absx.ground(r[0].val):
+            memo[key] = r[0].val
+        return r
+    I = absx.Interp(f, U, summaries=[nomlit.summary, unesc.feed_summary(f), unesc.char_summary, pure_once], inline=lambda c: c.startswith(FP), combinators=True)
+    I.exact_seqs = True
+    inputs = value_inputs(length_points(f, p))
+    bad = {k: [] for k in ('decided', 'no-panic', 'malformed-escape-rejected', 'escape-yields-its-octets', 'literal-octets-unchanged', 'consumes-the-value-characters')}
+    for inp in inputs:
+        rest, exp = ref_value(inp)
+        shown = show_octets(inp)
+        try:
+            outs = I.run(env={params[0]: ('lit', inp)})
+        except absx.TooManyPaths:
+            outs = []
+        if any(o.kind == 'div' for o in outs):
+            bad['no-panic'].append('`%s` panics' % shown)
+            continue
+        r = nomlit.result_of(outs[0].val) if len(outs) == 1 and outs[0].kind in ('val', 'ret') else None
+        got = None
+        if r is not None and r[0] == 'err':
+            got = ('err',)
+        elif r is not None and nomlit.is_bytes(r[1]) and octets_of(r[2]) is not None:
+            got = ('ok', r[1][1], octets_of(r[2]))
+        if got is None:
+            bad['decided'].append('`%s`: %s' % (shown, ', '.join('%s %s' % (o.kind, absx.fmt(o.val)[:60]) for o in outs)[:160] or 'no outcome'))
+        elif exp is None and got[0] == 'ok':
+            bad['malformed-escape-rejected'].append('`%s` accepted as the octets %s' % (shown, show_hex(got[2])))
+        elif exp is not None and (got[0] == 'err' or got[2] != exp):
+            kind = 'escape-yields-its-octets' if 0x5c in inp[:len(inp) - len(rest)] else 'literal-octets-unchanged'
+            bad[kind].append('`%s` %s, expected the octets %s' % (shown, 'rejected' if got[0] == 'err' else 'gives ' + show_hex(got[2]), show_hex(exp)))
+        elif exp is not None and got[1] != rest:
+            bad['consumes-the-value-characters'].append('`%s` leaves `%s`, expected `%s`' % (shown, show_octets(got[1]), show_octets(rest)))
+    texts = {
+        'decided': 'the evaluation of unescaped() on a literal input must end in one known Ok((rest, octets)) / Err',
+        'no-panic': 'no value may panic',
+        'malformed-escape-rejected': 'a backslash that is not followed by two hex digits must be rejected (RFC 4515: escaped = "\\" HEX HEX)',
+        'escape-yields-its-octets': 'a backslash with two hex digits hi lo stands for the one octet 16*hi+lo',
+        'literal-octets-unchanged': 'an octet that is not part of an escape stands for itself',
+        'consumes-the-value-characters': 'the value is the longest run of value characters; what follows it is left for the caller',
+    }
+    for k, w in bad.items():
+        ctx.add('P5.value-unescaping', k, where, not w, '%s; evaluated on %d literal inputs, unescaped() differs on %d: %s' % (texts[k], len(inputs), len(w), '; '.join(w[:5])))
+    ctx.floor('P5.value-unescaping', 'literal inputs of the escape partition evaluated', len(inputs), 2500)
 
 
 UNESC_VARIANTS = ['Unescaper::WantFirst', 'Unescaper::WantSecond', 'Unescaper::Value', 'Unescaper::Error']
